@@ -67,6 +67,14 @@ class SymDict(_MapLike):
         self.owner = z3.Store(self.owner, kk, self.ghost_index)
 
     def getattr(self, eng, name):
+        from .values import NativeFn
+        if name == "get":
+            def get(k, default=None):
+                kk = to_key(eng, k)
+                if eng.branch(z3.Select(self.member, kk)):
+                    return z3.Select(self.lookup, kk)
+                return default
+            return NativeFn("symdict.get", get)
         raise Unsupported(f"method {name} of a dictionary with symbolic keys")
 
     def iterate(self, eng):
